@@ -1,19 +1,21 @@
 ENTRY = {
     "C10": {
-        "pkg": ".", "hdir": "dastard", "harness": DASTARD_COMMON + ["zz_verif_c03_test.go", "zz_verif_c10_test.go", "zz_verif_c11_test.go", "zz_verif_c17_test.go"], "test": "TestVerifC10",
+        "pkg": ".", "hdir": "dastard", "harness": DASTARD_COMMON + ["zz_verif_c03_test.go", "zz_verif_c04_test.go", "zz_verif_c10_test.go", "zz_verif_c11_test.go", "zz_verif_c17_test.go"], "test": "TestVerifC10",
         "engines": ["vexp", "vhook"], "runtime_patch": True, "gomaxprocs": 1,
         "instrument": {"files": {
             "data_source.go": {"only": ["Start", "CoreLoop", "Stop", "closeIfOpen", "RunDoneActivate", "RunDoneDeactivate", "RunDoneWait",
                                         "RunDoneChan", "GetState", "SetStateStarting", "SetStateInactive"]},
             "abaco.go": {"only": ["readerMainLoop", "getNextBlock", "distributeData", "Sample"]},
+            "lancero_source.go": {"only": ["launchLanceroReader", "getNextBlock", "ConfigureMixFraction", "distributeData"]},
             "simulated_data_sources.go": {"only": ["StartRun"]},
             "writing_state.go": {}}},
-        "textpatch": [{"file": "abaco.go", "old": "ticker := time.NewTicker(as.readPeriod)", "new": "ticker := vNewTicker(as.readPeriod)"}],
+        "textpatch": [{"file": "lancero_source.go", "old": "ticker := time.NewTicker(ls.readPeriod)", "new": "ticker := vNewTicker(ls.readPeriod)"},
+                      {"file": "abaco.go", "old": "ticker := time.NewTicker(as.readPeriod)", "new": "ticker := vNewTicker(as.readPeriod)"}],
         "quick": T(16, 90), "thorough": T(16, 900),
         "rule": "one execution = one complete interleaving (synchronisation-operation granularity, preemption-bounded, all select alternatives) of the driver threads "
                 "(Start, Stop callers) with the real CoreLoop goroutine and the producer goroutine of a scripted source; oracle: no deadlock, all calls return, final state "
                 "Inactive, writing stopped, no goroutine of the run left, and the same object restarts and delivers; non-trivial = at least one preemption",
-        "assumptions": ["Abaco scenarios: the packet producer is scripted and the reader's ticker is a seam driven by a clock thread; the time.After alternatives of getNextBlock/readerMainLoop never fire",
+        "assumptions": ["Abaco/Lancero scenarios: the packet producer / card is scripted (Lancero: Sample() bypassed, geometry set directly) and the reader's ticker is a seam driven by a clock thread; the time.After alternatives of getNextBlock/readerMainLoop never fire",
                         "the producer is scripted (it follows the protocol of SimPulseSource: select{abort|tick}, send, close(nextBlock)); real-time tickers of the simulated sources are not explored",
                         "Stop is only called after Start has returned (the RPC layer refuses Stop while no source is active); Start || Start is explored at the source level",
                         "scheduling points are at channel operations, select, close, Lock/Unlock/Wait/Done in Start, CoreLoop, Stop, RunDone*, state accessors and WritingState"],
